@@ -1,5 +1,6 @@
 import SJ.Drv.Mach
 import SJ.Model.Raw
+import SJ.Model.RawConv
 import SJ.Spec.Canon
 import SJ.Spec.Pos
 namespace SJ.Drv.C19
@@ -67,9 +68,15 @@ def rawstr : Handler := fun args impl =>
     | some bs =>
       let cfg := cfgOfTag c
       let exp := specSpan bs false
-      let modelOut := match rawTop cfg .str bs with
-        | .ok p e => "OK:" ++ hexField ((bs.drop p).take (e - p))
+      -- the whole observation from the models: the text `rawTop` captures, written back verbatim at top level and as a
+      -- sequence element (`Model.SerRaw`: one `write_all` of the text), and `to_value(&raw)` = `Model.RawConv.toValueRaw`
+      let tvOf (t : Bytes) : String := match SJ.Model.RawConv.toValueRaw cfg t with | .ok v => encJV v | .err _ _ => "ERR"
+      let modelFull := match rawTop cfg .str bs with
+        | .ok p e =>
+          let t := (bs.drop p).take (e - p)
+          "OK:" ++ String.intercalate "|" [hexField t, hexField t, hexField t, hexOfBytes ([0x5b] ++ t ++ [0x5d]), tvOf t, tvOf t]
         | .err _ _ => "ERR"
+      let modelOut := if modelFull.startsWith "OK:" then ((modelFull.splitOn "|").headD "") else "ERR"
       let implHead := if impl.startsWith "OK:" then ((impl.splitOn "|").headD "") else "ERR"
       let specs : List String :=
         match exp with
@@ -84,7 +91,7 @@ def rawstr : Handler := fun args impl =>
               (if nested == hexOfBytes ([0x5b] ++ core ++ [0x5d]) then [] else [s!"C19 nested RawValue not verbatim: {nested}"]) ++
               (if tv == pv then [] else [s!"C19 to_value(raw) {tv} differs from parsing its text {pv}"])
             | _ => ["C19 malformed observation"]
-      { model := if implHead == modelOut then impl else modelOut, specs := specs }
+      { model := if implHead == "ERR" && modelOut == "ERR" then impl else modelFull, specs := specs }
     | none => bad "hex"
   | _ => bad "arity"
 
